@@ -17,7 +17,8 @@
 From Coq Require Import String List ZArith Bool Lia.
 Require Import Blots.Num Blots.gen.Builtins Blots.Ast Blots.Value Blots.Outcome Blots.Binop
                Blots.Env Blots.Eval Blots.BuiltinsHof Blots.Program Blots.EvalInst
-               Blots.proofs.Closures Blots.proofs.NoPanic.
+               Blots.Access Blots.BuiltinsList Blots.proofs.Closures Blots.proofs.NoPanic
+               Blots.proofs.NoPanicList.
 Import ListNotations.
 Open Scope string_scope.
 
@@ -80,10 +81,84 @@ Check C01_builtin_call_no_panic_partial : forall cb b args st,
   fst (builtin_impl cb b args st) <> Panic.
 Print Assumptions C01_builtin_call_no_panic_partial.
 
-(* the same statement is wanted for the built-ins transcribed on other branches (Access.v,
-   BuiltinsList.v, BuiltinsAgg.v, units): until they are merged into EvalInst.builtin_impl the
-   arms of those built-ins are [Unmodelled] here, which the theorem above covers trivially.
-   Full statement, kept as a definition: no built-in arm is Unmodelled and none panics. *)
+(* ---- the list / string / record built-ins transcribed in BuiltinsList.v (owner C14; not
+        wired into EvalInst.builtin_impl, so stated over the arms themselves): after the arity
+        check no arm panics.  17 pure arms as a table; `range` is not in the table — its arm has
+        a second partial operation (i64 subtraction), covered by C14_range_no_panic with its
+        exclusion ---- *)
+Theorem C01_list_builtins_no_panic : forall b arm args,
+  In (b, arm) list_builtin_arms ->
+  arity_can_accept (builtin_arity b) (Datatypes.length args) = true ->
+  arm args <> Panic.
+Proof. exact list_builtins_no_panic. Qed.
+Check C01_list_builtins_no_panic : forall b arm args,
+  In (b, arm) list_builtin_arms ->
+  arity_can_accept (builtin_arity b) (Datatypes.length args) = true ->
+  arm args <> Panic.
+Print Assumptions C01_list_builtins_no_panic.
+
+(* sort_by / group_by / count_by: no panic when FunctionDef::call does not panic *)
+Theorem C01_callback_list_builtins_no_panic :
+  forall (St : Type) (call : value -> value -> list value -> St -> outcome value * St),
+  (forall this f a st, fst (call this f a st) <> Panic) ->
+  forall args st,
+    (arity_can_accept (builtin_arity B_sort_by) (Datatypes.length args) = true ->
+     fst (bi_sort_by St call args st) <> Panic) /\
+    (arity_can_accept (builtin_arity B_group_by) (Datatypes.length args) = true ->
+     fst (bi_group_by St call args st) <> Panic) /\
+    (arity_can_accept (builtin_arity B_count_by) (Datatypes.length args) = true ->
+     fst (bi_count_by St call args st) <> Panic).
+Proof.
+  intros St call Hc args st. repeat split; intros Ha.
+  - apply sort_by_np; assumption.
+  - apply group_by_np; assumption.
+  - apply count_by_np; assumption.
+Qed.
+Check C01_callback_list_builtins_no_panic :
+  forall (St : Type) (call : value -> value -> list value -> St -> outcome value * St),
+  (forall this f a st, fst (call this f a st) <> Panic) ->
+  forall args st,
+    (arity_can_accept (builtin_arity B_sort_by) (Datatypes.length args) = true ->
+     fst (bi_sort_by St call args st) <> Panic) /\
+    (arity_can_accept (builtin_arity B_group_by) (Datatypes.length args) = true ->
+     fst (bi_group_by St call args st) <> Panic) /\
+    (arity_can_accept (builtin_arity B_count_by) (Datatypes.length args) = true ->
+     fst (bi_count_by St call args st) <> Panic).
+Print Assumptions C01_callback_list_builtins_no_panic.
+
+(* trim / uppercase / lowercase / join: for EVERY Unicode-table and number-printing oracle *)
+Theorem C01_text_builtins_no_panic :
+  forall (str_trim str_upper str_lower : string -> string) (num_str : num -> string)
+         (lam_str : list lamarg -> expr -> list (string * value) -> string) args,
+    (arity_can_accept (builtin_arity B_trim) (Datatypes.length args) = true -> bi_trim str_trim args <> Panic) /\
+    (arity_can_accept (builtin_arity B_uppercase) (Datatypes.length args) = true -> bi_uppercase str_upper args <> Panic) /\
+    (arity_can_accept (builtin_arity B_lowercase) (Datatypes.length args) = true -> bi_lowercase str_lower args <> Panic) /\
+    (arity_can_accept (builtin_arity B_join) (Datatypes.length args) = true -> bi_join num_str lam_str args <> Panic).
+Proof.
+  intros. repeat split; intros Ha.
+  - apply trim_np; assumption.
+  - apply uppercase_np; assumption.
+  - apply lowercase_np; assumption.
+  - apply join_np; assumption.
+Qed.
+Check C01_text_builtins_no_panic :
+  forall (str_trim str_upper str_lower : string -> string) (num_str : num -> string)
+         (lam_str : list lamarg -> expr -> list (string * value) -> string) args,
+    (arity_can_accept (builtin_arity B_trim) (Datatypes.length args) = true -> bi_trim str_trim args <> Panic) /\
+    (arity_can_accept (builtin_arity B_uppercase) (Datatypes.length args) = true -> bi_uppercase str_upper args <> Panic) /\
+    (arity_can_accept (builtin_arity B_lowercase) (Datatypes.length args) = true -> bi_lowercase str_lower args <> Panic) /\
+    (arity_can_accept (builtin_arity B_join) (Datatypes.length args) = true -> bi_join num_str lam_str args <> Panic).
+Print Assumptions C01_text_builtins_no_panic.
+
+(* the arms DO panic without the arity check (the guard is what the theorems are about) *)
+Example C01_list_arm_panics_without_arity_check :
+  bi_slice [VList []] = Panic /\ bi_chunk [VList []] = Panic /\ bi_len [] = Panic.
+Proof. repeat split; vm_compute; reflexivity. Qed.
+
+(* Full statement, kept as a Definition (NOT proved): every built-in has a transcribed arm wired
+   into EvalInst.builtin_impl and none panics.  Missing: the BuiltinsList.v arms above are not
+   wired into builtin_impl (C14 runs them through C14Run.v), and the aggregates (BuiltinsAgg.v,
+   C15), convert (C17) and the number-text built-ins (C16/C20) are not in the tree yet. *)
 Definition C01_builtin_call_no_panic_full : Prop :=
   forall cb b args st, cb_safe cb ->
     can_accept (builtin_arity b) (Datatypes.length args) = true ->
